@@ -58,6 +58,8 @@ pub enum MOp {
     Advance(u64),
     /// the next database write of this task is rejected as a whole
     RejectNextWrite,
+    /// a write that reaches the database NOT through this manager (another process / manager)
+    ExternalSet(Rec),
 }
 
 #[derive(Clone, Debug, Serialize, Deserialize)]
@@ -303,6 +305,11 @@ fn gen_c16(rng: &mut Rng, tier: Tier) -> Spec {
                 }
                 36..=45 => ops.push(MOp::Advance(*rng.pick(&[1, 2, 3, lifetime.saturating_sub(1).max(1), lifetime, lifetime + 1, 10 * lifetime]))),
                 46..=49 => ops.push(MOp::Flush),
+                50..=55 if !concurrent => {
+                    // only keys that are never part of a transaction commit race: nodes and value states
+                    let r = gen_rec(rng, &mut serial);
+                    ops.push(MOp::ExternalSet(r));
+                }
                 _ => {
                     // reads of single records and batches are what the statement is about
                     let r = match rng.below(6) {
@@ -349,6 +356,10 @@ struct Shared {
     hist: BTreeMap<Vec<u8>, KeyHist>,
     states: Vec<u64>,
     herr: Option<String>,
+    /// key -> virtual ms at which the database value was last changed behind the manager's back
+    ext: BTreeMap<Vec<u8>, u64>,
+    lifetime_ms: u64,
+    t0: Option<tokio::time::Instant>,
 }
 impl Shared {
     fn p(&mut self, n: &str) {
@@ -534,6 +545,38 @@ async fn do_read(op: &MOp, mgr: &StorageManager<SimDb>, store: &SimStore, sh: &A
     }
     let mut g = sh.lock().unwrap();
     g.checks += 1;
+    // Writes that reached the database behind the manager's back: the cache may serve the older record until
+    // its lifetime has passed (or for as long as a transaction is open, during which expiry is suspended);
+    // serving it any longer means expiry is broken.
+    if mismatch.is_some() && !concurrent && !g.ext.is_empty() {
+        if let Some(recs) = &got_records {
+            let snap = store.snapshot();
+            let now = g.t0.map(|t| tokio::time::Instant::now().duration_since(t).as_millis() as u64).unwrap_or(0);
+            let mut all_excused = true;
+            let mut expired: Option<String> = None;
+            for (bin, r) in recs {
+                let want = pending.get(bin).or(snap.get(bin));
+                if r.as_ref() == want {
+                    continue;
+                }
+                match g.ext.get(bin) {
+                    Some(t) if in_tx || now.saturating_sub(*t) <= g.lifetime_ms + 2 => {}
+                    Some(t) => {
+                        all_excused = false;
+                        expired = Some(format!("{op:?}: returned serial {:?} although the database has held serial {:?} for {} virtual ms (item lifetime {} ms) and no transaction is open", r.as_ref().map(serial_of), want.map(serial_of), now - *t, g.lifetime_ms));
+                    }
+                    None => all_excused = false,
+                }
+            }
+            if all_excused {
+                mismatch = None;
+                g.p("stale_within_lifetime_after_external_write");
+            } else if let Some(e) = expired {
+                mismatch = None;
+                g.v("c16_served_expired_record", e);
+            }
+        }
+    }
     if let Some(m) = mismatch {
         let class = if in_tx { "c15_transaction_read_differs_from_committed_read" } else if tag == "c16" { "c16_read_differs_from_storage" } else { "c15_read_outside_transaction_differs" };
         g.v(class, m);
@@ -668,12 +711,32 @@ async fn run_task(ti: usize, ops: Vec<MOp>, mgr: StorageManager<SimDb>, store: S
                                 g.v("c15_epoch_record_not_last", "the commit batch does not end in the epoch record".into());
                             }
                         }
+                        for k in pending.keys() {
+                            g.ext.remove(k);
+                        }
                         g.p("commit");
                     }
                 }
             }
             MOp::RejectNextWrite => {
                 reject_next = true;
+            }
+            MOp::ExternalSet(rec) => {
+                if matches!(rec, Rec::Azks { .. }) {
+                    continue;
+                }
+                let b = build(rec);
+                let key = b.get_full_binary_id();
+                // not if this key is pending in the open transaction (the commit would race with it)
+                if sh.lock().unwrap().pending.contains_key(&key) {
+                    continue;
+                }
+                use akd::storage::Database;
+                let _ = store.handle(7).set(b).await;
+                let mut g = sh.lock().unwrap();
+                let now = g.t0.map(|t| tokio::time::Instant::now().duration_since(t).as_millis() as u64).unwrap_or(0);
+                g.ext.insert(key, now);
+                g.p("external_write");
             }
             MOp::Set(_) | MOp::BatchSet(_) => {
                 let recs: Vec<Rec> = match op {
@@ -703,6 +766,11 @@ async fn run_task(ti: usize, ops: Vec<MOp>, mgr: StorageManager<SimDb>, store: S
                         g.v("c15_set_in_transaction_failed", format!("{res:?}"));
                     }
                 } else {
+                    if res.is_ok() {
+                        for b in built.iter() {
+                            g.ext.remove(&b.get_full_binary_id());
+                        }
+                    }
                     for b in built.iter() {
                         let k = b.get_full_binary_id();
                         let s = serial_of(b);
@@ -721,6 +789,7 @@ async fn run_task(ti: usize, ops: Vec<MOp>, mgr: StorageManager<SimDb>, store: S
             }
             MOp::Flush => {
                 mgr.flush_cache().await;
+                sh.lock().unwrap().ext.clear();
                 sh.lock().unwrap().p("flush");
                 // after a flush the next read of the epoch record reflects storage
                 if !concurrent {
@@ -746,6 +815,14 @@ async fn run_spec(spec: Spec) -> Shared {
     store.set_log_applies(true);
     let mgr = make_manager(store.handle(0), &spec.cache);
     let sh = Arc::new(Mutex::new(Shared::default()));
+    {
+        let mut g = sh.lock().unwrap();
+        g.t0 = Some(tokio::time::Instant::now());
+        g.lifetime_ms = match &spec.cache {
+            CacheSpec::Custom { lifetime_ms, .. } => (*lifetime_ms).max(2),
+            _ => 30_000,
+        };
+    }
     let concurrent = spec.tasks.len() > 1;
     let mut hs = vec![];
     for (ti, ops) in spec.tasks.iter().enumerate() {
